@@ -449,6 +449,12 @@ def describe_write(ctx, an):
     for h, info in lps.items():
         for x in info["body"]:
             in_loop[x] = h
+    # a block from which the loop head is no longer reached on any path the analysis follows (the closure / helper it sits in
+    # returns "stop" and the caller leaves the loop) is not part of the repetition
+    if getattr(an, "node_edges", None):
+        for x, h in list(in_loop.items()):
+            if x != h and any(e["bi"] == x for e in an.emits) and h not in an.blocks_reachable(x):
+                del in_loop[x]
     order = {bi: i for i, bi in enumerate(an.rpo())}
     seq = []
     loop_items = {}
